@@ -83,8 +83,8 @@ def task_tokens():
         return res
     ep = elem[0].pattern
 
-    def viol(key, desc, replay):
-        res["violations"].append(dict(key=key, desc=desc, replay_src=replay))
+    def viol(key, desc, replay, soft=False):
+        res["violations"].append(dict(key=key, desc=desc, replay_src=replay, soft=soft))
 
     # (o) the symbols tuple itself equals the reference list (index + 1 = atomic number)
     res["obligations"] += 1
@@ -219,7 +219,8 @@ print(bad); sys.exit(1 if bad else 0)
     if others == expected_other:
         res["discharged"] += 1
     else:
-        viol("tokens:other-regexes", "bracket/state/prime token set changed: %s" % sorted(others ^ expected_other), REPLAY_EL)
+        # a changed token set is a change of the supported notation, not by itself a violation: soft (the replay decides)
+        viol("tokens:other-regexes", "bracket/state/prime token set changed: %s" % sorted(others ^ expected_other), REPLAY_EL, soft=True)
     res["twin"] = "violated" if twin else "passed"
     res["solver_s"] = time.time() - t0
     res["sample"] = {"element regex": ep[:60] + "...", "claim": "ordered-choice match length on any window == longest reference symbol prefix"}
